@@ -19,6 +19,7 @@
 -/
 import TypedpyModel.Lemmas.MappersRegion
 import TypedpyModel.Lemmas.MappersCache
+import TypedpyModel.Sem.MapperMro
 namespace Typedpy.C07
 open Typedpy.Mappers
 
@@ -244,15 +245,15 @@ theorem nested_step (S : StrFns) (camel : Bool) (m : MDict) (n : String) (opt : 
       simp [dNested, J.isNull, ser, this]
 
 theorem construct_noExtras (ca : Bool) (ex r : List (String × J)) (h : ex.isEmpty = true) :
-    construct ca ex r = .ok (.obj r) := by
-  simp [construct, h]
+    Mappers.construct ca ex r = .ok (.obj r) := by
+  simp [Mappers.construct, h]
 
 @[simp] theorem kuNext_false (camel : Bool) (d : List Mapper) : kuNext false camel d = false := by
   simp [kuNext]
 
 @[simp] theorem exFree_false (S : StrFns) (camel co : Bool) (names : List String) (ms : MDict)
     (kvs : List (String × J)) : exFree S camel false co names ms kvs = true := by
-  simp [exFree, extrasOf]
+  simp [exFree, Mappers.extrasOf]
 
 mutual
 /-- the deserializer, walking any suffix `fs` of the class's fields over the serialization of the whole
@@ -771,6 +772,34 @@ theorem region_all_dict_example :
         (fun d => match d with
           | .obj [("mm", .obj [("gg", .obj [("z", .int 1)]), ("y", .int 3)])] => true
           | _ => false) = true := by
+  decide
+
+/-! ### several bases: the order of collection -/
+
+def mTag : Mapper → String
+  | .lower => "L"
+  | .camel => "C"
+  | .dict _ => "D"
+
+/-- `class A: _serialization_mapper = TO_LOWERCASE`, `class B(A)`, `class C(A): … = TO_CAMELCASE`,
+    `class D(B, C): … = {}` -/
+def diamond : List ClsNode :=
+  [{ name := "A", bases := [], ser := some (.single .lower) },
+   { name := "B", bases := ["A"] },
+   { name := "C", bases := ["A"], ser := some (.single .camel), closed := true },
+   { name := "D", bases := ["B", "C"], ser := some (.single (.dict [])) }]
+
+/-- the diamond: linearisation `D, B, C, A`; the mappers are collected along the *reversed* linearisation
+    with `getattr` per class, so `B` (which defines nothing) contributes `A`'s mapper a second time, after
+    `C`'s; `D` forbids additional properties by inheritance from `C` only; and a plain chain collects
+    exactly what the single-inheritance `collect` does -/
+theorem mro_collection_example :
+    mroIn (mroTable diamond) "D" = ["D", "B", "C", "A"]
+    ∧ (cinfoOf diamond "D").ser.map mTag = ["L", "C", "L", "D"]
+    ∧ (cinfoOf diamond "D").closedAny = true ∧ (cinfoOf diamond "D").closedOwn = false
+    ∧ (cinfoOf diamond "D").des.isNone = true
+    ∧ (cinfoOf (chainGraph 0 [some (.single .lower), none, some (.many [.camel, .dict []])]) "c2").ser.map mTag
+        = (collect none [some (.single .lower), none, some (.many [.camel, .dict []])]).map mTag := by
   decide
 
 end Typedpy.C07
